@@ -15,7 +15,9 @@ ASSUMPTIONS = ["'exactly once, in wire order' over streams of fragments and sile
 TRUSTED = ["rustc nightly MIR", "facts driver", "rules/mir.py"]
 
 RESP = lambda x: mentions_name(x, "response")
-UNSOL = g_bool(lambda x: mentions_call(x, r"ResponseFunction::is_unsolicited$") and RESP(x), False)
+_FN = lambda x: RESP(x) and mentions_field(x, "function") and not mentions(x, lambda s: s[0] == "call")
+# "this fragment is a solicited response": is_unsolicited() == false, or the equivalent variant test on header.function
+UNSOL = g_any(g_bool(lambda x: mentions_call(x, r"ResponseFunction::is_unsolicited$") and RESP(x), False), g_is(_FN, "Response"), lambda g: g.kind == "isnot" and _FN(g.a) and "UnsolicitedResponse" in g.name)
 SRC = g_rel("Eq", lambda x: mentions_name(x, "source") and mentions_field(x, "link"), lambda x: mentions_name(x, "destination") and mentions_field(x, "link"))
 SEQ = g_rel("Eq", lambda x: RESP(x) and mentions_field(x, "seq"), lambda x: x in (("capture", "seq"), ("param", "seq")))
 IIN = g_bool(lambda x: mentions_call(x, r"Iin::has_bad_request_error$") and RESP(x), False)
@@ -222,7 +224,8 @@ def r5(ctx):
             gs2 = ctx.guards_at(bd, blk.idx)
             ctx.check(any(pred(g) for g in gs2), "to_response:%s:guard" % label, "Err(%s) under its test" % err, bd.where(blk.idx))
             unsol_truth = label != "solicited-with-UNS"
-            ctx.check(any(g.kind == "bool" and g.truth is unsol_truth and un(g.a) for g in gs2), "to_response:%s:kind" % label, "…and under is_unsolicited() == %s" % unsol_truth, bd.where(blk.idx))
+            vname = "UnsolicitedResponse" if unsol_truth else "Response"
+            ctx.check(any((g.kind == "bool" and g.truth is unsol_truth and un(g.a)) or (g.kind == "is" and g.name == vname and (g.enum or "").endswith("ResponseFunction")) for g in gs2), "to_response:%s:kind" % label, "…and under is_unsolicited() == %s" % unsol_truth, bd.where(blk.idx))
             g = [g for g in gs2 if pred(g)]
             if g:
                 ctx.check(b.idx not in reachable_from_edge(bd, g[-1]), "to_response:%s:blocks-Ok" % label, "the rejecting edge cannot reach Ok", bd.where(blk.idx))
